@@ -150,6 +150,10 @@ def gen_case(r):
     o['no_cache'] = r.random() < 0.15
     case['use_jar'] = r.random() < 0.75
     case['proxy'] = r.random() < 0.2
+    if case['proxy']:
+        # the proxy pool has credentials of its own, and its host filter sends some hosts directly (--proxy-exclude-hostnames)
+        case['proxy_auth'] = r.choice([None, 'Basic cHJveHl1c2VyOnByb3h5cGFzcw=='])
+        case['proxy_direct_hosts'] = r.sample(hosts, r.choice([0, 0, 1, min(2, len(hosts))]))
     case['ignore_length'] = r.random() < 0.1
     case['max_redirects'] = r.choice([20, 20, 20, 5, 2, 1, 0])
     if r.random() < 0.12:
@@ -368,6 +372,10 @@ def check_case(case, res):
             if hosts != [py_hwp(u).encode('ascii')]:
                 out.append(('one_host', i, 'Host fields %r, URL wants %r' % (hosts, py_hwp(u))))
         # state of another host
+        for n, v in fields:
+            if n.lower() == b'proxy-authorization' and not hop['full'] and not base_has(res, 'proxy-authorization'):
+                out.append(('cross_host_state', i, 'Proxy-Authorization (credentials of the proxy) sent to %s on a connection that '
+                                                   'does not go through the proxy' % u['hostname']))
         others = [res['u0']] + [h['url'] for h in res['hops']]
         if not base_has(res, 'authorization'):
             mine = _creds(u, login)
